@@ -67,6 +67,8 @@ class Rows:
             return Fn(model=lambda ex, st, a, k: ExpandSpec(a[0]), name="expand")
         if name == "batch_size":
             return (self.seq.len,)
+        if name == "seq":
+            return self.seq
         raise Undecided(f"TensorDict attribute {name}")
 
     def getitem(self, ex, st, idx):
@@ -125,6 +127,11 @@ class Rows:
 
     def havoc(self, ex, st, name):
         self.seq.arr = z3.Const(fresh_name(self.seq.label), self.seq.arr.sort())
+
+    def havoc_copy(self, ex, st, name):
+        s = Seq.new("Row", self.seq.label)
+        st.assume(s.len >= 0)
+        return Rows(s)
 
     def same_value(self, ex, other):
         if not isinstance(other, Rows):
@@ -234,9 +241,30 @@ def RB_INV(b):
         z3.Implies(tot < N, cur == tot),
         z3.Implies(stg.isnone, tot == 0),
         z3.Implies(z3.Not(stg.isnone), stg.val.seq.len == N),
-        z3.Implies(z3.Not(stg.isnone),
-                   z3.ForAll([i], z3.Implies(z3.And(0 <= i, i < N, last >= 0), stg.val.seq.arr[i] == H[last]))),
+        z3.Implies(z3.Not(stg.isnone), RBq(stg.val.seq.arr, H, tot, cur, N)),
     )
+
+
+RBq = z3.Function("RBq", z3.ArraySort(z3.IntSort(), Row), z3.ArraySort(z3.IntSort(), Row), z3.IntSort(), z3.IntSort(),
+                  z3.IntSort(), z3.BoolSort())    # opaque content clause, revealed inside ReplayBuffer's own functions
+
+
+def rb_content(arr, H, tot, cur, N):
+    i = z3.Int("i!rb")
+    last = z3.If(i < cur, tot - cur + i, tot - cur - N + i)
+    return z3.ForAll([i], z3.Implies(z3.And(0 <= i, i < N, last >= 0), arr[i] == H[last]))
+
+
+def reveal_rb(b):
+    """RBq(...) is *defined* as rb_content(...) for the current storage/history of buffer b."""
+    f = b.fields
+    stg = f["_storage"]
+    if stg is None:
+        return z3.BoolVal(True)
+    if isinstance(stg, Rows):
+        stg = Opt(z3.BoolVal(False), stg)
+    a = (stg.val.seq.arr, f["gH"], f["gtot"], f["_cursor"], f["max_size"])
+    return RBq(*a) == rb_content(*a)
 
 
 def happend(H, tot, data):
@@ -248,14 +276,15 @@ def happend(H, tot, data):
 def rb_contracts(P, verify, cls="ReplayBuffer", shape="RB"):
     """Contracts of ReplayBuffer.add / sample / clear / __len__ (verified in C09; used modularly by C10/C11)."""
     q = RB + cls + "."
-    P.specns.update(dict(RB_INV=RB_INV, happend=happend))
+    P.specns.update(dict(RB_INV=RB_INV, happend=happend, reveal_rb=reveal_rb))
     P.contract(RB + "ReplayBuffer.add", verify=verify,
                params={"self": "obj:" + shape, "data": make_rows},
                requires=["RB_INV(self)", "len(data) >= 1", "len(data) <= self.max_size"],
                modifies=["self._storage", "self._cursor", "self._size", "self.counter", "self.initialized",
                          "self.gH", "self.gtot"],
+               ghost_entry=["use(reveal_rb(self))"] if verify else [],
                ghost_exit=["self.gH = happend(old(self.gH), old(self.gtot), old(data))",
-                           "self.gtot = old(self.gtot) + len(old(data))"],
+                           "self.gtot = old(self.gtot) + len(old(data))", "use(reveal_rb(self))"],
                ensures=["RB_INV(self)",
                         "self.gtot == old(self.gtot) + len(old(data))",
                         "self.gH == happend(old(self.gH), old(self.gtot), old(data))",
@@ -270,12 +299,13 @@ def rb_contracts(P, verify, cls="ReplayBuffer", shape="RB"):
     P.contract(RB + "ReplayBuffer.sample", verify=verify,
                params={"self": "obj:" + shape, "batch_size": "int", "return_idx": "bool"},
                requires=["RB_INV(self)", "self._storage is not None", "batch_size >= 0"],
+               ghost_entry=["use(reveal_rb(self))"] if verify else [],
                modifies=[],
                result=make_rows,
                ensures=["len(result) == (batch_size if batch_size < self._size else self._size)",
                         "sampled_ok(self, result, return_idx)"],
                witness={"self.max_size": 4, "self._cursor": 2, "self._size": 2, "self.gtot": 2, "self._storage": [0, 0, 0, 0],
-                        "batch_size": 1, "self.gH": lambda h: h == z3.K(z3.IntSort(), ZERO_ROW)},
+                        "batch_size": 1, "self.gH": lambda h: h == z3.K(z3.IntSort(), ZERO_ROW), "fact:rb": "reveal_rb(self)"},
                replay="c09:rb_sample")
     P.contract(RB + "ReplayBuffer.clear", verify=verify,
                params={"self": "obj:" + shape},
